@@ -46,7 +46,7 @@ PROPS = {
         "projection": "lookups",
         "oracle": "C01",
         "audit_kinds": ["map_write", "map_read", "time_check"],
-        "corpus": ["C01", "D6", "D7"],
+        "corpus": ["C01", "D6", "D7", "D12"],
         "assumptions": COMMON_ASSUME,
         "level_text": "Unsync: proved for every configuration, hash function, weigher and history (C01_unsync: the oracle that tracks, per key, the value of the most recent insert and whether it has been invalidated accepts every trace of the model; proof by a coupling invariant between the model state and that bookkeeping, preserved by every operation). Sync: proved for the concurrent cache driven by one thread (C01_sync): every history, every placement of sync(), any number of queued operations, including the maintenance runs that insert/get/invalidate perform themselves; proof by frame lemmas over all of maintenance (the map only shrinks, last_modified never changes, last_accessed only moves forward to a queued hit) and a coupling invariant. Many threads: for every interleaving of the many-thread model ConcS.lean (calls split into map step / maintenance run / enqueue, operations ordered by their map steps) the same oracle accepts the linearised trace (ConcS_C01, and ConcF_C01 for the finest model). At the finest granularity (ConcF.lean: every map access of maintenance its own step) a maintenance micro-step only ever deletes map bindings, never writes one (ConcF_maintenance_only_deletes); the seeded 'put the victims back' change, kept as a variant, leaves a stale value in the map (ConcF_counterexample_put_back). Real threads are C02's concern.",
         "level_note": "Theorems about Unsync.lean and Sync.lean; tie = differential runs (every lookup result compared) + map-site audit. The oracle also judges every implementation trace directly. Traces are judged up to the first internal panic (C08).",
@@ -108,8 +108,10 @@ PROPS = {
         "level_note": "Faults are explicit in the model (sticky fault field); tie = full white-box differential runs in the debug profile + panic/unsafe site audit. Real interleavings and the allocator are not modelled.",
     },
     "C03": {
-        "lean_modules": ["MiniMoka.Props.C03", "MiniMoka.Props.C03A", "MiniMoka.Props.C03ASync", "MiniMoka.Props.C03BSync", "MiniMoka.Props.NoFreq", "MiniMoka.Props.C03BTrace", "MiniMoka.Props.ConcSNoLoss", "MiniMoka.Props.ConcFMore"],
-        "theorems": ["MiniMoka.Props.ConcF_no_spurious_removal",
+        "lean_modules": ["MiniMoka.Props.C03", "MiniMoka.Props.C03A", "MiniMoka.Props.C03ASync", "MiniMoka.Props.C03BSync", "MiniMoka.Props.NoFreq", "MiniMoka.Props.C03BTrace", "MiniMoka.Props.ConcSNoLoss", "MiniMoka.Props.ConcFMore", "MiniMoka.Props.ConcSRefill"],
+        "theorems": ["MiniMoka.Props.ConcS_C03B_after_any_phase", "MiniMoka.Props.ConcS_C03_refill_retained", "MiniMoka.Props.ConcS_C03_refill_counters",
+                     "MiniMoka.Props.ConcS_reach_continuation", "MiniMoka.Props.ConcS_valid_after_le_now",
+                     "MiniMoka.Props.ConcF_no_spurious_removal",
                      "MiniMoka.Props.ConcS_no_spurious_removal", "MiniMoka.Props.ConcS_insert_retained", "MiniMoka.Props.ConcS_insert_retained_path",
                      "MiniMoka.Props.C03_unsync_oracle", "MiniMoka.Props.C03_unsync_oracle_noFreq", "MiniMoka.Props.C03B_unsync_trace",
                      "MiniMoka.Props.C03_sync_oracle_noFreq","MiniMoka.Props.C03_sync_oracle", "MiniMoka.Props.C03B_sync", "MiniMoka.Props.C03A_sync", "MiniMoka.Props.C03A_sync_large_capacity", "MiniMoka.Props.C03A_sync_oracle",
@@ -124,7 +126,7 @@ PROPS = {
         "audit_kinds": ["map_write", "counter", "time_write", "time_check"],
         "corpus": ["C03", "D3", "D4", "D6", "D7"],
         "assumptions": COMMON_ASSUME,
-        "level_text": "Oracle: a map-with-expiry reference is run beside every implementation trace; with no capacity (or a capacity the history never reaches) every lookup must return exactly what the reference requires (on the concurrent cache the idle extension of a get is owed only after the next sync); with bounded capacity every insert of a fresh key that fits in the room left by the physical residents must be retained and evict nothing. Proved on the single-threaded model for every configuration, hash, weigher and history: with no capacity, or a capacity the inserted weight never reaches, every get / contains_key / iteration returns exactly what the map-with-expiry reference requires (C03A_unsync, C03A_unsync_large_capacity, C03A_unsync_oracle: two-way coupling, soundness from C01 plus completeness: every entry the reference must hold is resident); with bounded capacity an insert that fits is retained and evicts no unexpired resident (C03B_unsync), and the purge removes only expired entries. Concurrent cache driven by one thread, proved for every configuration, history, placement of sync() and clock pattern: with no capacity, or a capacity the inserted weight never reaches, every lookup returns exactly what the reference requires, the idle extension of a get being owed once maintenance has applied it (C03A_sync, C03A_sync_large_capacity, C03A_sync_oracle: two-way coupling, completeness from 'maintenance removes an entry only if it is expired or invalidated, judged with every queued read applied'). Part B on the concurrent cache is proved as well (C03B_sync, hence the whole oracle: C03_sync_oracle): between two quiescent snapshots a fresh key, inserted once or several times before maintenance runs, keeps its latest value if that fits in the room the residents leave, and if every inserted value fits nothing unexpired is evicted (the accounted weight is that of the value the map holds now, so an earlier, heavier value never causes a rejection of the later one). Many threads, no capacity (model ConcS.lean, all interleavings): a step removes a map entry only if it is the invalidate of that key, or a maintenance run that finds it expired or hidden by the watermark; an inserted entry stays resident along every path that does not disturb it in one of these ways, whether or not its write op has been enqueued (ConcS_no_spurious_removal, ConcS_insert_retained, ConcS_insert_retained_path; ConcF_no_spurious_removal for the finest model, where the removing step is a single maintenance micro-step). The multi-threaded refill clause: real-thread component, stress only.",
+        "level_text": "Oracle: a map-with-expiry reference is run beside every implementation trace; with no capacity (or a capacity the history never reaches) every lookup must return exactly what the reference requires (on the concurrent cache the idle extension of a get is owed only after the next sync); with bounded capacity every insert of a fresh key that fits in the room left by the physical residents must be retained and evict nothing. Proved on the single-threaded model for every configuration, hash, weigher and history: with no capacity, or a capacity the inserted weight never reaches, every get / contains_key / iteration returns exactly what the map-with-expiry reference requires (C03A_unsync, C03A_unsync_large_capacity, C03A_unsync_oracle: two-way coupling, soundness from C01 plus completeness: every entry the reference must hold is resident); with bounded capacity an insert that fits is retained and evicts no unexpired resident (C03B_unsync), and the purge removes only expired entries. Concurrent cache driven by one thread, proved for every configuration, history, placement of sync() and clock pattern: with no capacity, or a capacity the inserted weight never reaches, every lookup returns exactly what the reference requires, the idle extension of a get being owed once maintenance has applied it (C03A_sync, C03A_sync_large_capacity, C03A_sync_oracle: two-way coupling, completeness from 'maintenance removes an entry only if it is expired or invalidated, judged with every queued read applied'). Part B on the concurrent cache is proved as well (C03B_sync, hence the whole oracle: C03_sync_oracle): between two quiescent snapshots a fresh key, inserted once or several times before maintenance runs, keeps its latest value if that fits in the room the residents leave, and if every inserted value fits nothing unexpired is evicted (the accounted weight is that of the value the map holds now, so an earlier, heavier value never causes a rejection of the later one). Many threads, no capacity (model ConcS.lean, all interleavings): a step removes a map entry only if it is the invalidate of that key, or a maintenance run that finds it expired or hidden by the watermark; an inserted entry stays resident along every path that does not disturb it in one of these ways, whether or not its write op has been enqueued (ConcS_no_spurious_removal, ConcS_insert_retained, ConcS_insert_retained_path; ConcF_no_spurious_removal for the finest model, where the removing step is a single maintenance micro-step). The multi-threaded refill clause: real-thread component, stress only. The thread clause of the property is proved for the many-thread model: after ANY interleaving of ConcS that ends with nobody holding an operation, every single-threaded continuation satisfies the part-B oracle (ConcS_C03B_after_any_phase), and concretely the sequential refill — invalidate every resident, sync, then insert up to max_capacity fresh unit-weight keys with a sync after each — retains every one of them, with exact counters before and after (ConcS_C03_refill_retained, ConcS_C03_refill_counters).",
         "level_note": "Theorem about Unsync.lean; tie = differential runs with capacity none/large/small + oracle on every implementation trace.",
     },
     "C04": {
@@ -165,8 +167,9 @@ PROPS = {
         "level_note": "Tie = differential runs with drop-counting key/value types, live counts in every snapshot and after drop. One genuine defect found this way and repaired (D11: an update left a second copy of the key alive in the list nodes).",
     },
     "C12": {
-        "lean_modules": ["MiniMoka.Props.C12", "MiniMoka.Props.C13Sync"],
-        "theorems": ["MiniMoka.Props.C12_sync_oracle", "MiniMoka.Props.C12_sync_recency", "MiniMoka.Props.C12_sync_recency_state",
+        "lean_modules": ["MiniMoka.Props.C12", "MiniMoka.Props.C13Sync", "MiniMoka.Props.C12Exp"],
+        "theorems": ["MiniMoka.Props.C12_unsync_growth_expiry", "MiniMoka.Props.C12_unsync_purge_exact", "MiniMoka.Props.C12_unsync_timestamps_sorted",
+                     "MiniMoka.Props.C12_sync_oracle", "MiniMoka.Props.C12_sync_recency", "MiniMoka.Props.C12_sync_recency_state",
                      "MiniMoka.Props.C12_unsync_oracle", "MiniMoka.Props.C12_unsync_recency", "MiniMoka.Props.C12_unsync_admission_victims",
                      "MiniMoka.Props.C12_unsync_growth_eviction", "MiniMoka.Props.C12_unsync_no_growth_eviction",
                      "MiniMoka.Props.C12_recency_order", "MiniMoka.Props.C12_prefLen_meaning"],
@@ -179,7 +182,7 @@ PROPS = {
         "audit_kinds": ["deque_op", "map_write"],
         "corpus": ["C12"],
         "assumptions": COMMON_ASSUME,
-        "level_text": "Single-threaded cache, proved for every configuration, hash, weigher and state satisfying the structural invariant (hence every reachable state): the victims of an admission are exactly the shortest prefix of the recency order (least recently used first) whose weights cover the missing room (C12_unsync_admission_victims, C12_prefLen_meaning); the size eviction after a growing update removes exactly the LRU prefix needed, at most one batch per call, and nothing when within capacity (C12_unsync_growth_eviction, _no_growth_eviction); the recency order itself is the order of last use (insert, update, successful get), for any number of operations between two observations; contains_key, iteration and invalidation only remove from it (C12_unsync_recency, C12_recency_order); the trace oracle used on implementation runs accepts every model trace (C12_unsync_oracle). Concurrent cache driven by one thread: proved for every configuration and history that the same oracle accepts every model trace (C12_sync_oracle): admission victims are the shortest LRU prefix (C13_sync_admission) and, between two quiescent snapshots with one use, the access order is the survivors in their old order followed by the used key (C12_sync_recency, C12_sync_recency_state: maintenance applies recorded reads then writes; expiry, eviction and invalidation only remove; skipped nodes are never current).",
+        "level_text": "Single-threaded cache, proved for every configuration, hash, weigher and state satisfying the structural invariant (hence every reachable state): the victims of an admission are exactly the shortest prefix of the recency order (least recently used first) whose weights cover the missing room (C12_unsync_admission_victims, C12_prefLen_meaning); the size eviction after a growing update removes exactly the LRU prefix needed, at most one batch per call, and nothing when within capacity (C12_unsync_growth_eviction, _no_growth_eviction); the recency order itself is the order of last use (insert, update, successful get), for any number of operations between two observations; contains_key, iteration and invalidation only remove from it (C12_unsync_recency, C12_recency_order); the trace oracle used on implementation runs accepts every model trace (C12_unsync_oracle). With stale residents present (some residents already past a deadline when the next lookup runs, the cache over capacity after a growing update): the lookup purges exactly the stale residents first (all of them when they fit one batch: C12_unsync_purge_exact, from the new invariant that both lists are sorted by timestamp, C12_unsync_timestamps_sorted) and only then removes the shortest LRU prefix of the REMAINING residents that covers the REMAINING excess; the oracle for this window (growthExpC12, which rejects a purge in the other order) accepts every model trace (C12_unsync_growth_expiry). Concurrent cache driven by one thread: proved for every configuration and history that the same oracle accepts every model trace (C12_sync_oracle): admission victims are the shortest LRU prefix (C13_sync_admission) and, between two quiescent snapshots with one use, the access order is the survivors in their old order followed by the used key (C12_sync_recency, C12_sync_recency_state: maintenance applies recorded reads then writes; expiry, eviction and invalidation only remove; skipped nodes are never current).",
         "level_note": "Theorems about Unsync.lean; tie = white-box differential runs comparing the whole access-order deque after every operation.",
     },
     "C13": {
@@ -201,8 +204,11 @@ PROPS = {
         "level_note": "Theorems about Unsync.lean with the sketch model of C14; tie = white-box differential runs with a popularity reading (hook) before every insert, estimates of all residents in every snapshot.",
     },
     "C14": {
-        "lean_modules": ["MiniMoka.Props.C14", "MiniMoka.Props.C08Sketch", "MiniMoka.Props.C14Cache", "MiniMoka.Props.C14Trace"],
-        "theorems": ["MiniMoka.Props.C14_unsync_trace_noFreq", "MiniMoka.Props.C14_sync_trace_noFreq",
+        "lean_modules": ["MiniMoka.Props.C14", "MiniMoka.Props.C08Sketch", "MiniMoka.Props.C14Cache", "MiniMoka.Props.C14Trace", "MiniMoka.Props.C14Bits"],
+        "theorems": ["MiniMoka.Props.SketchW_frequency_refines", "MiniMoka.Props.SketchW_increment_refines",
+                     "MiniMoka.Props.SketchW_ensureCapacity_refines", "MiniMoka.Props.SketchW_run_refines",
+                     "MiniMoka.Props.SketchW_run_frequency", "MiniMoka.Props.SketchW_run_complete",
+                     "MiniMoka.Props.C14_unsync_trace_noFreq", "MiniMoka.Props.C14_sync_trace_noFreq",
                      "MiniMoka.Props.C14_unsync_trace", "MiniMoka.Props.C14_sync_trace","MiniMoka.Props.C14_unsync_only_get_records", "MiniMoka.Props.C14_unsync_get_records_once",
                      "MiniMoka.Props.C14_sync_only_get_queues_reads", "MiniMoka.Props.C14_sync_get_queues_one_read",
                      "MiniMoka.Props.C14_sync_sketch_fed_by_reads_only", "MiniMoka.Props.C14_sync_step_feed",
@@ -219,7 +225,7 @@ PROPS = {
         "audit_kinds": ["sketch_op"],
         "corpus": ["C14", "D5"],
         "assumptions": COMMON_ASSUME + ["the code's bit tricks (+= 1 << off, (w >> 1) & RESET_MASK, (w & ONE_MASK).count_ones()) implement the arithmetic meaning used by the model: checked word-for-word by the sketch facade component, not proved"],
-        "level_text": "Proved on the model of frequency_sketch.rs for every capacity (0, non powers of two, ...), every hash sequence and every interleaving with aging steps: estimate <= 15, estimate >= saturating/halved lookup count (never underestimates), equality when one of the key's four counters is used by no other recorded hash, recording other hashes never lowers an estimate except through an aging step, which floor-halves every counter and every estimate; no overflow below 2^28 table slots. 'Only get records', proved on both cache models for every history: an operation other than get changes no estimate (C14_unsync_only_get_records), each get records its hash exactly once (C14_unsync_get_records_once); on the concurrent cache only get appends to the read queue, exactly one read per get, never dropped (C14_sync_only_get_queues_reads, C14_sync_get_queues_one_read'), the write and eviction paths never touch the sketch and applying a read is exactly one increment (C14_sync_sketch_fed_by_reads_only, C14_sync_step_feed); the trace oracle used on implementation runs (across an operation that is not a get, with no recorded read waiting, no resident key's estimate changes) accepts every trace of both models (C14_unsync_trace, C14_sync_trace and their noFreq forms); at any time the sketch holds exactly the recorded lookups since it was enabled (…_sketch_holds_exactly_the_gets; lookups before enabling, incl. those drained in the enabling pass, are not recorded: enabling starts from the empty sketch).",
+        "level_text": "Proved on the model of frequency_sketch.rs for every capacity (0, non powers of two, ...), every hash sequence and every interleaving with aging steps: estimate <= 15, estimate >= saturating/halved lookup count (never underestimates), equality when one of the key's four counters is used by no other recorded hash, recording other hashes never lowers an estimate except through an aging step, which floor-halves every counter and every estimate; no overflow below 2^28 table slots. 'Only get records', proved on both cache models for every history: an operation other than get changes no estimate (C14_unsync_only_get_records), each get records its hash exactly once (C14_unsync_get_records_once); on the concurrent cache only get appends to the read queue, exactly one read per get, never dropped (C14_sync_only_get_queues_reads, C14_sync_get_queues_one_read'), the write and eviction paths never touch the sketch and applying a read is exactly one increment (C14_sync_sketch_fed_by_reads_only, C14_sync_step_feed); the trace oracle used on implementation runs (across an operation that is not a get, with no recorded read waiting, no resident key's estimate changes) accepts every trace of both models (C14_unsync_trace, C14_sync_trace and their noFreq forms); at any time the sketch holds exactly the recorded lookups since it was enabled (…_sketch_holds_exactly_the_gets; lookups before enabling, incl. those drained in the enabling pass, are not recorded: enabling starts from the empty sketch). The statements about counters read arithmetically are carried to the code's word-level bit manipulation, which is re-translated from frequency_sketch.rs on every run: for all 2^64 words the shift/mask/popcount tricks mean what the arithmetic model says (counter_of_word_agrees, inc_room_agrees, inc_delta_agrees, odd_counters_agrees, halved_word_agrees), and the word-level sketch SketchW refines the arithmetic one operation by operation and over every run (SketchW_frequency_refines, SketchW_increment_refines, SketchW_ensureCapacity_refines, SketchW_run_refines).",
         "level_note": "Index computation mirrors the code's wrapping u64 arithmetic; counter updates are modelled arithmetically (w / 16^j % 16). Tie: facade component compares table (FNV digest of all words), size and sample size after every 97 increments and every estimate.",
     },
     "C17": {
@@ -277,8 +283,9 @@ PROPS = {
         "level_note": "Theorems about Sync.lean / Unsync.lean; tie = differential runs + metamorphic runs on the implementation. The unsync contains_key clause is proved only in the partial form named above because the code violates the full one (D9, recorded not repaired).",
     },
     "C02": {
-        "lean_modules": ["MiniMoka.Props.C02", "MiniMoka.Props.C02Refines", "MiniMoka.Props.C02ConcS", "MiniMoka.Props.ConcF", "MiniMoka.Props.C02ConcF"],
-        "theorems": ["MiniMoka.Props.ConcF_refines_R", "MiniMoka.Props.C02_for_ConcF_read_from", "MiniMoka.Props.C02_for_ConcF_not_superseded", "MiniMoka.Props.C02_for_ConcF_final",
+        "lean_modules": ["MiniMoka.Props.C02", "MiniMoka.Props.C02Refines", "MiniMoka.Props.C02ConcS", "MiniMoka.Props.ConcF", "MiniMoka.Props.C02ConcF", "MiniMoka.Props.ConcV"],
+        "theorems": ["MiniMoka.Props.ConcV_invalidation_permanent", "MiniMoka.Props.ConcV_counterexample_D12",
+                     "MiniMoka.Props.ConcF_refines_R", "MiniMoka.Props.C02_for_ConcF_read_from", "MiniMoka.Props.C02_for_ConcF_not_superseded", "MiniMoka.Props.C02_for_ConcF_final",
                      "MiniMoka.Props.ConcF_maintenance_only_deletes",
                      "MiniMoka.Props.ConcS_refines_R", "MiniMoka.Props.C02_for_ConcS_read_from", "MiniMoka.Props.C02_for_ConcS_not_superseded", "MiniMoka.Props.C02_for_ConcS_final",
                      "MiniMoka.Props.Sync_step_refines_R", "MiniMoka.Props.Sync_history_refines_R", "MiniMoka.Props.Sync_history_WF",
@@ -289,14 +296,15 @@ PROPS = {
         "projection": "lookups",
         "oracle": "C01",
         "audit_kinds": ["map_write", "map_read", "channel"],
-        "corpus": ["C02"],
+        "corpus": ["C02", "D12"],
         "assumptions": COMMON_ASSUME + ["DashMap entry/get/remove/remove_if are atomic per key and the memory ordering of the atomics is as intended (trusted)", "real OS schedules are sampled by uncontrolled stress, not enumerated: exhaustive schedule exploration is a different technique"],
-        "level_text": "Proved for the abstract model R of per-key atomic map steps (every public call = invoke, one atomic map step, response; maintenance may delete any key at any time), for ALL interleavings, any number of threads and operations: a get returning v read an insert(k,v) with no write of k in between, hence never a value superseded by an operation that completed before the get began (C02_read_from, C02_not_superseded); values of one writer never go backwards for a reader (C02_monotone); at the end each key holds nothing or the last value written (C02_final). The step from R to OS threads, DashMap and crossbeam is not proved: 2-4 real threads x 1-6 ops on 1-3 keys are recorded with invoke/response stamps and each history is judged by an acceptor proved sound and complete for R (acceptR_sound, acceptR_complete). That the detailed model's operations are R fragments is proved: every insert / invalidate / get of Sync.lean is `invoke, one map step on its key, deletions by maintenance (daemon events), respond` and every other operation changes the map by deletions only or not at all (Sync_step_refines_R); every single-thread history of Sync.lean is an execution R accepts, with the same responses (Sync_history_refines_R, Sync_history_WF), so the C02 theorems apply to it. The same for the many-thread model ConcS.lean (any number of threads, calls split into map step / maintenance run / enqueue, freely interleaved): every execution projects to an execution R accepts with the same responses (ConcS_refines_R), hence in every such interleaving a get that returns v read an insert(k, v) with no write of k between the two map steps, is never superseded by an operation that completed before it began, and the final map holds the last write (C02_for_ConcS_read_from / _not_superseded / _final); likewise for the finest model ConcF.lean, in which every map access of a maintenance run is its own step (ConcF_refines_R, C02_for_ConcF_*).",
+        "level_text": "Proved for the abstract model R of per-key atomic map steps (every public call = invoke, one atomic map step, response; maintenance may delete any key at any time), for ALL interleavings, any number of threads and operations: a get returning v read an insert(k,v) with no write of k in between, hence never a value superseded by an operation that completed before the get began (C02_read_from, C02_not_superseded); values of one writer never go backwards for a reader (C02_monotone); at the end each key holds nothing or the last value written (C02_final). The step from R to OS threads, DashMap and crossbeam is not proved: 2-4 real threads x 1-6 ops on 1-3 keys are recorded with invoke/response stamps and each history is judged by an acceptor proved sound and complete for R (acceptR_sound, acceptR_complete). That the detailed model's operations are R fragments is proved: every insert / invalidate / get of Sync.lean is `invoke, one map step on its key, deletions by maintenance (daemon events), respond` and every other operation changes the map by deletions only or not at all (Sync_step_refines_R); every single-thread history of Sync.lean is an execution R accepts, with the same responses (Sync_history_refines_R, Sync_history_WF), so the C02 theorems apply to it. The same for the many-thread model ConcS.lean (any number of threads, calls split into map step / maintenance run / enqueue, freely interleaved): every execution projects to an execution R accepts with the same responses (ConcS_refines_R), hence in every such interleaving a get that returns v read an insert(k, v) with no write of k between the two map steps, is never superseded by an operation that completed before it began, and the final map holds the last write (C02_for_ConcS_read_from / _not_superseded / _final); likewise for the finest model ConcF.lean, in which every map access of a maintenance run is its own step (ConcF_refines_R, C02_for_ConcF_*). Racing invalidate_all calls (two steps each: clock reading, store) are modelled in ConcV.lean: ConcV_invalidation_permanent for the repaired store, ConcV_counterexample_D12 for the old one (defect D12, found in this work and repaired).",
         "level_note": "Theorems about ConcR.lean. Tie: map-site audit (every DashMap call site), recorded real-thread histories accepted by the verified acceptor, quiescent counters.",
     },
     "C07": {
-        "lean_modules": ["MiniMoka.Props.C07", "MiniMoka.Props.C02", "MiniMoka.Props.ConcSLookup", "MiniMoka.Props.ConcFLookup"],
-        "theorems": ["MiniMoka.Props.ConcF_C07",
+        "lean_modules": ["MiniMoka.Props.C07", "MiniMoka.Props.C02", "MiniMoka.Props.ConcSLookup", "MiniMoka.Props.ConcFLookup", "MiniMoka.Props.ConcV"],
+        "theorems": ["MiniMoka.Props.ConcV_invalidation_permanent", "MiniMoka.Props.ConcV_invalidation_permanent_later", "MiniMoka.Props.ConcV_watermark_monotone", "MiniMoka.Props.ConcV_completed_below_watermark", "MiniMoka.Props.ConcV_counterexample_D12", "MiniMoka.Props.ConcV_justifies_Sync_invalidateAll",
+                     "MiniMoka.Props.ConcF_C07",
                      "MiniMoka.Props.ConcS_C07",
                      "MiniMoka.Props.C07_unsync", "MiniMoka.Props.C07_sync",
                      "MiniMoka.Props.C07_precise_invalidate_entries_if", "MiniMoka.Props.C07_precise_invalidate",
@@ -308,9 +316,9 @@ PROPS = {
         "projection": "state",
         "oracle": "C07+C03",
         "audit_kinds": ["map_write", "time_write", "time_check"],
-        "corpus": ["C07", "D6b", "D7"],
+        "corpus": ["C07", "D6b", "D7", "D12"],
         "assumptions": COMMON_ASSUME,
-        "level_text": "Immediate and permanent: proved for both caches, every history, every placement of the three invalidation calls incl. while inserts/reads of the same keys are queued (C07_unsync, C07_sync: a yielded key is never one whose latest insert was invalidated; concurrent invalidate_all = strictly earlier clock reading). Precise: on the single-threaded cache invalidate_entries_if removes exactly the matching entries, invalidate(k) exactly k (beyond the purge every operation starts with), invalidate_all everything (theorems on the model functions); on the concurrent cache invalidate_all changes only the watermark and keeps observable what was written at the same or a later reading. That later inserts and re-inserted keys stay retrievable is C03's oracle (no spurious loss) and is judged on every implementation trace here as well. Readers against an invalidating thread under all interleavings: ConcR.C07_reader (model R), and on the detailed many-thread model ConcS.lean, operations ordered by their map steps: ConcS_C07, ConcF_C07.",
+        "level_text": "Immediate and permanent: proved for both caches, every history, every placement of the three invalidation calls incl. while inserts/reads of the same keys are queued (C07_unsync, C07_sync: a yielded key is never one whose latest insert was invalidated; concurrent invalidate_all = strictly earlier clock reading). Precise: on the single-threaded cache invalidate_entries_if removes exactly the matching entries, invalidate(k) exactly k (beyond the purge every operation starts with), invalidate_all everything (theorems on the model functions); on the concurrent cache invalidate_all changes only the watermark and keeps observable what was written at the same or a later reading. That later inserts and re-inserted keys stay retrievable is C03's oracle (no spurious loss) and is judged on every implementation trace here as well. Readers against an invalidating thread under all interleavings: ConcR.C07_reader (model R), and on the detailed many-thread model ConcS.lean, operations ordered by their map steps: ConcS_C07, ConcF_C07. invalidate_all itself is two steps in the code (read the clock, store the reading); the model ConcV.lean interleaves them with other threads' inserts, clock steps and invalidate_all calls: with the repaired monotone store the watermark never moves backwards and nothing a completed invalidate_all discarded becomes visible again (ConcV_watermark_monotone, ConcV_completed_below_watermark, ConcV_invalidation_permanent, ConcV_invalidation_permanent_later); with the old plain store the interleaving of defect D12 revives an invalidated entry (ConcV_counterexample_D12); the atomic step of Sync/ConcS is the interference-free special case (ConcV_justifies_Sync_invalidateAll).",
         "level_note": "Oracle = reference bookkeeping (dead after the call) on every lookup + exact resident-set comparison around invalidate_all / invalidate_entries_if snapshots on the single-threaded cache.",
     },
     "C16": {
@@ -361,19 +369,27 @@ AGREE_THEOREMS = {
     "SketchArith": ["MiniMoka.Agree.sketchCapacity_agrees", "MiniMoka.Agree.indexOf_agrees",
                     "MiniMoka.Agree.start_agrees", "MiniMoka.Agree.reset_agrees", "MiniMoka.Agree.age_now_agrees",
                     "MiniMoka.Agree.ensureCapacity_agrees"],
+    "SketchBits": ["MiniMoka.Agree.counter_of_word_agrees", "MiniMoka.Agree.inc_room_agrees",
+                   "MiniMoka.Agree.inc_delta_agrees", "MiniMoka.Agree.odd_counters_agrees",
+                   "MiniMoka.Agree.halved_word_agrees"],
     "Config": ["MiniMoka.Agree.maxDuration_agrees", "MiniMoka.Agree.tooLong_agrees_ttl",
                "MiniMoka.Agree.tooLong_agrees_tti"],
 }
 
 LOGIC = {"C01": ["Expiry", "Lookup", "Identity"], "C02": ["Identity"], "C03": ["Capacity", "Expiry", "Lookup"], "C04": ["Capacity", "Loops"], "C05": ["Expiry", "Lookup", "Enable"], "C06": ["Expiry", "Lookup", "Enable"],
-         "C07": ["Expiry", "Lookup"], "C08": ["SketchArith", "Identity"], "C10": ["Identity"], "C11": ["Identity"], "C09": ["Housekeeper", "Loops"], "C12": ["Capacity", "Admit", "Loops"],
-         "C13": ["Capacity", "Admit"], "C14": ["SketchArith"], "C16": ["Expiry", "Lookup"], "C17": ["Config", "Capacity", "Enable"]}
+         "C07": ["Expiry", "Lookup"], "C08": ["SketchArith", "SketchBits", "Identity"], "C10": ["Identity"], "C11": ["Identity"], "C09": ["Housekeeper", "Loops"], "C12": ["Capacity", "Admit", "Loops"],
+         "C13": ["Capacity", "Admit", "SketchBits"], "C14": ["SketchArith", "SketchBits"], "C16": ["Expiry", "Lookup"], "C17": ["Config", "Capacity", "Enable"]}
 for _k, _v in LOGIC.items():
     PROPS[_k]["logic"] = _v
 
 # properties whose theorems lean on the statement order of the concurrent cache's functions
 for _k in ("C01", "C02", "C03", "C04", "C08", "C10", "C11"):
     PROPS[_k]["audit_kinds"] = list(PROPS[_k]["audit_kinds"]) + ["op_order"]
+# properties that lean on how long a map guard / the deques lock is held (per-key atomicity of a
+# lookup together with its expiry test; counters published under the lock)
+for _k in ("C01", "C02", "C05", "C06", "C07", "C08", "C10"):
+    if "lock_order" not in PROPS[_k]["audit_kinds"]:
+        PROPS[_k]["audit_kinds"] = list(PROPS[_k]["audit_kinds"]) + ["lock_order"]
 
 # Thorough tier only: the real code paths under Miri (supporting validation, never a proof):
 # dereference of freed nodes, invalid raw-pointer use and leaks that a debug build passes silently.
@@ -396,12 +412,24 @@ for _k in ("C01", "C02", "C03", "C04", "C07", "C08", "C10", "C11"):
 # Tight real-thread loops with an online oracle (harness `hammer`): watermark = a completed
 # invalidate_all is never undone for a later get; mono = completed inserts are never superseded
 # backwards for a reader; syncs = explicit sync() beside the writers' own housekeeping: no panic, exact
-# counters at quiescence.
+# counters at quiescence; drops = instrumented keys/values under threads: live objects = resident entries at
+# quiescence, none after the cache is dropped.
 PROPS["C02"]["components"] = list(PROPS["C02"]["components"]) + [("hammer", ["watermark+mono"], 8, 0)]
 PROPS["C07"]["components"] = list(PROPS["C07"]["components"]) + [("hammer", ["watermark"], 6, 0)]
+# (the same lookup path decides all three kinds of staleness: time-to-live, time-to-idle, watermark)
+PROPS["C05"]["components"] = list(PROPS["C05"]["components"]) + [("hammer", ["watermark"], 6, 0)]
+PROPS["C06"]["components"] = list(PROPS["C06"]["components"]) + [("hammer", ["watermark"], 6, 0)]
 PROPS["C01"]["components"] = list(PROPS["C01"]["components"]) + [("hammer", ["watermark+mono"], 6, 0)]
 PROPS["C08"]["components"] = list(PROPS["C08"]["components"]) + [("hammer", ["syncs"], 8, 0)]
-PROPS["C10"]["components"] = list(PROPS["C10"]["components"]) + [("hammer", ["syncs"], 8, 0)]
+PROPS["C10"]["components"] = list(PROPS["C10"]["components"]) + [("hammer", ["syncs+racing"], 10, 0)]
+PROPS["C11"]["components"] = list(PROPS["C11"]["components"]) + [("hammer", ["drops"], 8, 0)]
+# a hit recorded just before the idle deadline and applied only after the original deadline has passed
+for _k in ("C01", "C03", "C06", "C07"):
+    PROPS[_k]["components"] = list(PROPS[_k]["components"]) + [("sync", ["lateread"], 20, 30), ("unsync", ["lateread"], 8, 30)]
+# the sketch of a weighted cache over more than one aging period / past its first sizing
+PROPS["C13"]["components"] = list(PROPS["C13"]["components"]) + [("unsync", ["regrow"], 8, 40), ("sync", ["regrow"], 8, 40)]
+PROPS["C14"]["components"] = list(PROPS["C14"]["components"]) + [("unsync", ["regrow", "aging"], 4, 40), ("sync", ["regrow", "aging"], 4, 40)]
+PROPS["C17"]["components"] = list(PROPS["C17"]["components"]) + [("unsync", ["aging"], 6, 40), ("sync", ["aging"], 6, 40)]
 PROPS["C08"]["thorough_components"] = MIRI + MIRI_CONC
 PROPS["C02"]["thorough_components"] = MIRI_CONC
 PROPS["C11"]["thorough_components"] = MIRI[:2] + MIRI[3:]
